@@ -590,61 +590,90 @@ Definition manifest_push_body (is_auth_client : bool) (bd : body) : body :=
    is the prefix the server reads of the WHOLE body, the pause is the policy's decision for
    (i, answer i); stop at the first answer the policy does not want retried.  No request state,
    no script threading, no trace accumulator. *)
-Fixpoint spec_run (p : policy) (bd : body) (sc : list beh) (t : Z) (i : nat) (fuel : nat)
+(* [cn]: the context's end; the specification answers an attempt that the context cuts short (or
+   that starts on an ended context) with the context's error at that instant, and ends the call
+   with the context's error when a pause would end after the context *)
+Fixpoint spec_run_c (p : policy) (cn : cancel) (bd : body) (sc : list beh) (t : Z) (i : nat) (fuel : nat)
   : result * Z * list (Z * str) :=
   match fuel with
   | O => (RFuel, t, [])
   | S fuel' =>
     let bh := nth i sc default_beh in
     let got := fst (take_body (b_read bh) (bdata bd)) in
-    let t1 := t + b_lat bh in
-    match generic_retry p (Z.of_nat i) (b_out bh) with
-    | DStop => (result_of_outcome (b_out bh), t1, [(t, got)])
-    | DFail => (fail_result (b_out bh), t1, [(t, got)])
+    let cut := ended_at cn t || cancelled_before cn (t + b_lat bh) in
+    let o := if cut then cancel_outcome cn else b_out bh in
+    let t1 := if cut then cancel_clock cn t else t + b_lat bh in
+    match generic_retry p (Z.of_nat i) o with
+    | DStop => (result_of_outcome o, t1, [(t, got)])
+    | DFail => (fail_result o, t1, [(t, got)])
     | DPanic => (RPanic, t1, [(t, got)])
     | DWait d =>
-      if d <? 0 then (result_of_outcome (b_out bh), t1, [(t, got)])
-      else let '(r, te, l) := spec_run p bd sc (t1 + d) (S i) fuel' in (r, te, (t, got) :: l)
+      if d <? 0 then (result_of_outcome o, t1, [(t, got)])
+      else if pause_cancelled cn (t1 + d) then (RCtx, cancel_clock cn t1, [(t, got)])
+      else let '(r, te, l) := spec_run_c p cn bd sc (t1 + d) (S i) fuel' in (r, te, (t, got) :: l)
     end
   end.
 
+Definition spec_send_c (p : policy) (cn : cancel) (bd : body) (sc : list beh) (t : Z)
+  : result * Z * list (Z * str) :=
+  spec_run_c p cn bd sc t 0 (rt_fuel p).
+
+Definition spec_run (p : policy) := spec_run_c p None.
 Definition spec_send (p : policy) (bd : body) (sc : list beh) (t : Z) : result * Z * list (Z * str) :=
-  spec_run p bd sc t 0 (rt_fuel p).
+  spec_send_c p None bd sc t.
 
 (* the stateless specification of auth.Client.Do (empty cache, token request spelled out) for
-   bodies that can always be replayed and a context that never ends: spec_send for the first
-   send, for the token request, and for the re-send on the rest of the registry's script *)
-Definition spec_auth_at (p : policy) (bd : body) (sc : list beh) (tb : body) (tsc : list beh) (t0 : Z)
+   bodies that can always be replayed: spec_send_c for the first send, for the token request, and
+   for the re-send on the rest of the registry's script *)
+Definition spec_auth_at_c (p : policy) (cn : cancel) (bd : body) (sc : list beh) (tb : body) (tsc : list beh) (t0 : Z)
   : result * Z * list (Z * str) * list (Z * str) * list (Z * str) :=
-  let '(r1, t1, l1) := spec_send p bd sc t0 in
+  let '(r1, t1, l1) := spec_send_c p cn bd sc t0 in
   if challenged r1 then
-    let '(kr, kt, kl) := if bearer_challenged r1 then spec_send p tb tsc t1 else (r1, t1, []) in
+    let '(kr, kt, kl) := if bearer_challenged r1 then spec_send_c p cn tb tsc t1 else (r1, t1, []) in
     if negb (bearer_challenged r1) || token_ok kr then
-      let '(r2, t2, l2) := spec_send p bd (skipn (length l1) sc) kt in
+      let '(r2, t2, l2) := spec_send_c p cn bd (skipn (length l1) sc) kt in
       (r2, t2, l1, kl, l2)
     else (token_error kr, kt, l1, kl, [])
   else (r1, t1, l1, [], []).
 
+Definition spec_auth_at (p : policy) := spec_auth_at_c p None.
 Definition spec_auth (p : policy) (bd : body) (sc : list beh) (tb : body) (tsc : list beh) :=
   spec_auth_at p bd sc tb tsc 0.
 
-Definition spec_plain_at (p : policy) (bd : body) (sc : list beh) (t0 : Z)
-  : result * Z * list (Z * str) * list (Z * str) * list (Z * str) :=
-  let '(r, t, l) := spec_send p bd sc t0 in (r, t, l, [], []).
+(* ... with a warm Bearer cache: cached token first, fresh token when that is refused *)
+Definition spec_authw_at_c (p : policy) (cn : cancel) (bd : body) (sc : list beh) (tb : body) (tsc : list beh) (t0 : Z)
+  : result * Z * list (Z * str) * list (Z * str) * list (Z * str) * list (Z * str) :=
+  let '(r1, t1, l1) := spec_send_c p cn bd sc t0 in
+  if challenged r1 then
+    let '(r2, t2, l2) := spec_send_c p cn bd (skipn (length l1) sc) t1 in
+    if bearer_challenged r1 && unauthorized r2 then
+      let '(kr, kt, kl) := spec_send_c p cn tb tsc t2 in
+      if token_ok kr then
+        let '(r3, t3, l3) := spec_send_c p cn bd (skipn (length l1 + length l2) sc) kt in
+        (r3, t3, l1, l2, kl, l3)
+      else (token_error kr, kt, l1, l2, kl, [])
+    else (r2, t2, l1, l2, [], [])
+  else (r1, t1, l1, [], [], []).
 
-(* the stateless specification of a blob push (empty token cache, replayable blob, no
-   cancellation): the POST by spec_auth_at / spec_plain_at; on 202 the PUT on the rest of both
-   scripts, through the auth logic only if the POST was not re-sent with credentials *)
-Definition spec_push (authc : bool) (p : policy) (bd : body) (sc : list beh) (tb : body) (tsc : list beh) :=
-  let post := if authc then spec_auth_at p no_body sc tb tsc 0 else spec_plain_at p no_body sc 0 in
+Definition spec_plain_at_c (p : policy) (cn : cancel) (bd : body) (sc : list beh) (t0 : Z)
+  : result * Z * list (Z * str) * list (Z * str) * list (Z * str) :=
+  let '(r, t, l) := spec_send_c p cn bd sc t0 in (r, t, l, [], []).
+Definition spec_plain_at (p : policy) := spec_plain_at_c p None.
+
+(* the stateless specification of a blob push (empty token cache, replayable blob): the POST by
+   spec_auth_at_c / spec_plain_at_c; on 202 the PUT on the rest of both scripts, through the auth
+   logic only if the POST was not re-sent with credentials *)
+Definition spec_push_c (authc : bool) (p : policy) (cn : cancel) (bd : body) (sc : list beh) (tb : body) (tsc : list beh) :=
+  let post := if authc then spec_auth_at_c p cn no_body sc tb tsc 0 else spec_plain_at_c p cn no_body sc 0 in
   let '(r, t, l1, kl, l2) := post in
   if accepted r then
     let sc' := skipn (length (l1 ++ l2)) sc in
     let tsc' := skipn (length kl) tsc in
     let authed := match l2 with [] => false | _ => true end in
-    let put := if authc && negb authed then spec_auth_at p bd sc' tb tsc' t else spec_plain_at p bd sc' t in
+    let put := if authc && negb authed then spec_auth_at_c p cn bd sc' tb tsc' t else spec_plain_at_c p cn bd sc' t in
     (fst (fst (fst (fst put))), snd (fst (fst (fst put))), post, Some put)
   else (r, t, post, None).
+Definition spec_push (authc : bool) (p : policy) := spec_push_c authc p None.
 
 (* ------------------------------------------------------------------ *)
 (* Acceptor for observed exponential-backoff results (the jitter is random, the
